@@ -237,6 +237,19 @@ def shape_cases(ck, res):
             ck.add_case(('shape', su, st))
             if acc is None or acc != exp:
                 ck.fail('safe_diff/shape-guard', f'safe_diff on shapes {su} / {st}: accepted={acc}, the property requires accepted={exp}', {'u_shape': su, 't_shape': st}, expected=exp, actual=acc)
+            # every calling style of the shape-checked entry points must apply the same guard: keywords, mixed, and diff()
+            for style, call in (('safe_diff(u=u, t=t)', lambda: safe_diff(u=u, t=t)), ('safe_diff(u, t=t)', lambda: safe_diff(u, t=t)),
+                                ('diff(u, t)', lambda: diff(u, t)), ('diff(u=u, t=t, shape_check=True)', lambda: diff(u=u, t=t, shape_check=True)),
+                                ('safe_diff(t=t, u=u, order=1)', lambda: safe_diff(t=t, u=u, order=1))):
+                try:
+                    call(); acc2 = True
+                except ValueError:
+                    acc2 = False
+                except Exception:
+                    acc2 = None
+                if acc2 is None or acc2 != exp:
+                    ck.fail('safe_diff/shape-guard/calling-style', f'{style} on shapes {su} / {st}: accepted={acc2}, the property requires accepted={exp}',
+                            {'u_shape': su, 't_shape': st, 'call': style}, expected=exp, actual=acc2)
             n_acc += bool(acc)
             lit = lambda s: '[' + '; '.join(f'{d}%nat' for d in s) + ']'
             cases.append((f'{su}/{st}', f'Bool.eqb (guards.safe_diff_accepts {lit(su)} {lit(st)}) {"true" if acc else "false"}'))
